@@ -29,6 +29,7 @@ GArray *g_array_sized_new(gboolean zero_terminated, gboolean clear_, guint eleme
 }
 GArray *g_array_new(gboolean z, gboolean c, guint element_size) { return g_array_sized_new(z, c, element_size, 0); }
 
+#ifndef VP_GLIB_NO_GARRAY_APPEND
 GArray *g_array_append_vals(GArray *array, gconstpointer data, guint len) {
 	vp_garray *a = (vp_garray *)array;
 	guint nl = a->len + len;
@@ -40,6 +41,7 @@ GArray *g_array_append_vals(GArray *array, gconstpointer data, guint len) {
 	a->data = nd; a->len = nl;
 	return array;
 }
+#endif
 GArray *g_array_remove_range(GArray *array, guint index_, guint length) {
 	vp_garray *a = (vp_garray *)array;
 	__CPROVER_assert(index_ <= a->len && length <= a->len - index_, "glib.g_array_remove_range: range inside the array");
